@@ -1,13 +1,21 @@
 /-
   C02 — Each operation's derivative equals its mathematical definition.
 
-  Part 1 (this file, proved): the scalar derivative table used by the reference (dual-number)
-  differentiation is the mathematical derivative over ℝ, at every in-domain point, for every
-  exponent.  The per-operation structure (which element receives which contribution: broadcasting,
-  overlapping windows, several summed dimensions, both operands transposed) is decided on every run
-  by comparing the implementation's gradients with the forward-mode reference (`CorgiSpec.Dual`).
+  Part 1 (proved): the scalar derivative table used by the reference (dual-number) differentiation
+  is the mathematical derivative over ℝ, at every in-domain point, for every exponent.
+  Part 2 (proved): over ℝ, for operands and delta of one (any valid) shape, the backward closure of
+  every point-wise operation — neg, scale, powf (any exponent), ln, exp, reciprocal, relu, sigmoid,
+  and add / mul / div in both operands — returns, element by element, `delta · f'(operand)` with `f'`
+  the `HasDerivAt` derivative of the forward function: the transpose of the (diagonal) Jacobian
+  applied to the delta (`C02_closure_*`).  A broadcast operand's contribution is then reduced by
+  `flatten_to`, proved to be the sum over the broadcast positions (C03_reduction_is_sum) — the
+  transpose of the broadcasting map.
+  The structure of the remaining operations (sum over several dimensions, reshape, matmul with all
+  flags/additive term, conv with overlapping windows) is decided on every run by comparing the
+  implementation's gradients with the forward-mode reference (`CorgiSpec.Dual`).
 -/
 import CorgiProofs.RealDeriv
+import CorgiProofs.RealClosures
 
 namespace Corgi
 
@@ -37,6 +45,71 @@ theorem C02_scale_closure {S : Type} [Add S] [Mul S] [Neg S] [Sub S] [ScalarOps 
     (self : Tensor S) (t : List Bool) (x : Tensor S) :
     vjp (.scale s) c self t x = .ok [some ⟨x.dims, x.vals.map (· * s)⟩] := rfl
 
+
+/-! ### Part 2: the closures of the point-wise operations are `delta · f'` (over ℝ, any valid shape) -/
+section closures
+variable (d : List Nat) (c x self : Tensor ℝ)
+
+theorem C02_closure_neg (hc : Shaped d c) (hx : Shaped d x) :
+    vjp (.neg : OpTag ℝ) [c] self [true] x = .ok [some (diag (fun _ => -1) d x c)] ∧
+    ∀ y : ℝ, HasDerivAt (fun y => -y) (-1) y := closure_neg d c x self hc hx
+
+theorem C02_closure_scale (s : ℝ) (hc : Shaped d c) (hx : Shaped d x) :
+    vjp (.scale s : OpTag ℝ) [c] self [true] x = .ok [some (diag (fun _ => s) d x c)] ∧
+    ∀ y : ℝ, HasDerivAt (fun y => y * s) s y := closure_scale d c x self s hc hx
+
+theorem C02_closure_powf (e : ℝ) (hne : d ≠ []) (hpos : ∀ k ∈ d, 1 ≤ k) (hc : Shaped d c) (hx : Shaped d x) :
+    vjp (.powf e : OpTag ℝ) [c] self [true] x = .ok [some (diag (fun y => e * y ^ (e - 1)) d x c)] ∧
+    ∀ y : ℝ, (y ≠ 0 ∨ 1 ≤ e) → HasDerivAt (fun y : ℝ => y ^ e) (e * y ^ (e - 1)) y :=
+  closure_powf d c x self e hne hpos hc hx
+
+theorem C02_closure_ln (hne : d ≠ []) (hpos : ∀ k ∈ d, 1 ≤ k) (hc : Shaped d c) (hx : Shaped d x) :
+    vjp (.ln : OpTag ℝ) [c] self [true] x = .ok [some (diag (fun y => 1 / y) d x c)] ∧
+    ∀ y : ℝ, y ≠ 0 → HasDerivAt Real.log (1 / y) y := closure_ln d c x self hne hpos hc hx
+
+theorem C02_closure_exp (hne : d ≠ []) (hpos : ∀ k ∈ d, 1 ≤ k) (hc : Shaped d c) (hx : Shaped d x) :
+    vjp (.exp : OpTag ℝ) [c] (exp c) [true] x = .ok [some (diag Real.exp d x c)] ∧
+    ∀ y : ℝ, HasDerivAt Real.exp (Real.exp y) y := closure_exp d c x hne hpos hc hx
+
+theorem C02_closure_recip (hne : d ≠ []) (hpos : ∀ k ∈ d, 1 ≤ k) (hc : Shaped d c) (hx : Shaped d x) :
+    vjp (.recip : OpTag ℝ) [c] self [true] x = .ok [some (diag (fun y => -((1 / y) ^ (2 : ℝ))) d x c)] ∧
+    ∀ y : ℝ, y ≠ 0 → HasDerivAt (fun y : ℝ => 1 / y) (-((1 / y) ^ (2 : ℝ))) y :=
+  closure_recip d c x self hne hpos hc hx
+
+theorem C02_closure_relu (hne : d ≠ []) (hpos : ∀ k ∈ d, 1 ≤ k) (hc : Shaped d c) (hx : Shaped d x) :
+    vjp (.relu : OpTag ℝ) [c] self [true] x = .ok [some (diag (fun y => if 0 < y then 1 else 0) d x c)] ∧
+    ∀ y : ℝ, y ≠ 0 → HasDerivAt (fun y : ℝ => if 0 < y then y else 0) (if 0 < y then 1 else 0) y :=
+  closure_relu d c x self hne hpos hc hx
+
+theorem C02_closure_sigmoid (hne : d ≠ []) (hpos : ∀ k ∈ d, 1 ≤ k) (hc : Shaped d c) (hx : Shaped d x) :
+    vjp (.sigmoid : OpTag ℝ) [c] (sigmoid c) [true] x
+      = .ok [some (diag (fun y => (1 / (1 + Real.exp (-y))) * (1 - 1 / (1 + Real.exp (-y)))) d x c)] ∧
+    ∀ y : ℝ, HasDerivAt (fun y : ℝ => 1 / (1 + Real.exp (-y)))
+      ((1 / (1 + Real.exp (-y))) * (1 - 1 / (1 + Real.exp (-y)))) y := closure_sigmoid d c x hne hpos hc hx
+
+theorem C02_closure_add (a b : Tensor ℝ) :
+    vjp (.add : OpTag ℝ) [a, b] self [true, true] x = .ok [some x, some x] := closure_add x self a b
+
+theorem C02_closure_mul (a b : Tensor ℝ) (hne : d ≠ []) (hpos : ∀ k ∈ d, 1 ≤ k) (ha : Shaped d a) (hb : Shaped d b)
+    (hx : Shaped d x) :
+    vjp (.mul : OpTag ℝ) [a, b] self [true, true] x
+      = .ok [some (diag (fun v => v) d x b), some (diag (fun u => u) d x a)] ∧
+    ∀ u v : ℝ, HasDerivAt (fun u => u * v) v u ∧ HasDerivAt (fun v => u * v) u v :=
+  closure_mul d x self a b hne hpos ha hb hx
+
+theorem C02_closure_div (a b : Tensor ℝ) (hne : d ≠ []) (hpos : ∀ k ∈ d, 1 ≤ k) (ha : Shaped d a) (hb : Shaped d b)
+    (hx : Shaped d x) :
+    vjp (.div : OpTag ℝ) [a, b] self [true, true] x
+      = .ok [some (diag (fun v => 1 / v) d x b),
+             some ⟨d, List.zipWith (· * ·) (List.zipWith (fun u v => -u / v ^ (2 : ℝ)) a.vals b.vals) x.vals⟩] ∧
+    ∀ u v : ℝ, v ≠ 0 → HasDerivAt (fun u => u / v) (1 / v) u ∧ HasDerivAt (fun v => u / v) (-u / v ^ (2 : ℝ)) v :=
+  closure_div d x self a b hne hpos ha hb hx
+
+end closures
+
+/-! non-vacuity: a `[2,3]` operand and delta over ℝ are `Shaped` -/
+example : Shaped [2, 3] (⟨[2, 3], [1, 2, 3, 4, 5, 6]⟩ : Tensor ℝ) := ⟨rfl, rfl⟩
+
 end Corgi
 
 #print axioms Corgi.C02_exp
@@ -48,3 +121,14 @@ end Corgi
 #print axioms Corgi.C02_sigmoid
 #print axioms Corgi.C02_relu
 #print axioms Corgi.C02_scale_closure
+#print axioms Corgi.C02_closure_neg
+#print axioms Corgi.C02_closure_scale
+#print axioms Corgi.C02_closure_powf
+#print axioms Corgi.C02_closure_ln
+#print axioms Corgi.C02_closure_exp
+#print axioms Corgi.C02_closure_recip
+#print axioms Corgi.C02_closure_relu
+#print axioms Corgi.C02_closure_sigmoid
+#print axioms Corgi.C02_closure_add
+#print axioms Corgi.C02_closure_mul
+#print axioms Corgi.C02_closure_div
